@@ -17,6 +17,8 @@
   impulse_response = ψ (all p, q; F6 repaired)    arma_impulse; the defect itself: tfImpulse_delay,
                                                   arma_impulse_unpadded_iff / _shift / _delayed / _of_le
   simulation = ψ * (σ ε)                          arma_simulation
+  ARMA object histories (any re-parameterisation) arma_history, arma_history_independent, arma_history_sigma_spec,
+                                                  armaUpd_query, armaUpd_setParams
   spectral density = σ²|θ(e^{-iw})/φ(e^{-iw})|²    spectral_density_formula, spectral_density_arma11
   hamilton_filter: cycle + trend = data, OLS      hamiltonP_decomposition, hamiltonP_nan_prefix, hamiltonP_length,
                                                   hamilton_lag_matrix, hamilton_target, hamilton_ols_orthogonal,
@@ -634,6 +636,65 @@ example : bbPdfList 5 (1/2 : ℚ) 2 = [512/1001, 640/3003, 128/1001, 80/1001, 20
 example : bbMoment 5 (1/2 : ℚ) 2 1 = 1 ∧ bbVar 5 (1/2 : ℚ) 2 = 12/7 := by decide +kernel
 
 end bb
+
+/-! ## the ARMA object: histories of re-parameterisations and queries -/
+
+section history
+variable {K : Type} [Field K]
+
+/-- queries (operations that return something) leave the object unchanged -/
+theorem armaUpd_query (o : ArmaObj K) (op : ArmaOp K) (h : (armaAns o op).isSome) : armaUpd o op = o := by
+  cases op <;> first | rfl | (simp [armaAns] at h)
+
+/-- re-parameterisations return nothing; `set_params()` alone changes nothing -/
+theorem armaUpd_setParams (o : ArmaObj K) : armaUpd o .setParams = o ∧ armaAns o (.setParams : ArmaOp K) = none :=
+  ⟨rfl, rfl⟩
+
+theorem armaRun_append (o : ArmaObj K) (pre post : List (ArmaOp K)) :
+    armaRun o (pre ++ post) = armaRun o pre ++ armaRun (pre.foldl armaUpd o) post := by
+  induction pre generalizing o with
+  | nil => rfl
+  | cons op ops ih =>
+    show (armaAns o op).toList ++ armaRun (armaUpd o op) (ops ++ post) = _
+    rw [ih (armaUpd o op)]
+    simp [armaRun, List.append_assoc]
+
+/-- **history theorem**: in any history `pre ++ q :: post` on one object, the answer to `q` is the answer a
+    *fresh* object with the current parameters `(φ, θ, σ)` — the last values assigned through any route — would
+    give; nothing else of the past (earlier queries, earlier parameter values, the order of assignments to
+    different fields) matters, and the later answers are computed from the same state. -/
+theorem arma_history (o : ArmaObj K) (pre post : List (ArmaOp K)) (q : ArmaOp K) :
+    armaRun o (pre ++ q :: post)
+      = armaRun o pre ++ (armaAns (pre.foldl armaUpd o) q).toList
+          ++ armaRun (armaUpd (pre.foldl armaUpd o) q) post := by
+  rw [armaRun_append]
+  simp [armaRun, List.append_assoc]
+
+/-- two histories that end in the same parameters answer every query identically -/
+theorem arma_history_independent (o₁ o₂ : ArmaObj K) (h₁ h₂ : List (ArmaOp K)) (q : ArmaOp K)
+    (hφ : (h₁.foldl armaUpd o₁).phi = (h₂.foldl armaUpd o₂).phi)
+    (hθ : (h₁.foldl armaUpd o₁).theta = (h₂.foldl armaUpd o₂).theta)
+    (hσ : (h₁.foldl armaUpd o₁).sigma = (h₂.foldl armaUpd o₂).sigma) :
+    armaAns (h₁.foldl armaUpd o₁) q = armaAns (h₂.foldl armaUpd o₂) q := by
+  generalize h₁.foldl armaUpd o₁ = a at hφ hθ hσ ⊢
+  generalize h₂.foldl armaUpd o₂ = b at hφ hθ hσ ⊢
+  cases a; cases b
+  simp only at hφ hθ hσ
+  subst hφ hθ hσ
+  rfl
+
+/-- assigning `sigma` re-scales the spectral density of the *same* object: the second query after
+    `sigma = σ'` is the fresh value with `σ'` (a stale memo of the first answer would keep `σ`) -/
+theorem arma_history_sigma_spec (o : ArmaObj K) (σ' : K) (cs ss : List K) :
+    armaRun o [.spec cs ss, .setSigma σ', .spec cs ss]
+      = [(cs.zip ss).map fun p => specDens o.phi o.theta o.sigma p.1 p.2,
+         (cs.zip ss).map fun p => specDens o.phi o.theta σ' p.1 p.2] := by
+  simp [armaRun, armaAns, armaUpd]
+
+example : armaRun (⟨[1/2], [1/4], 1⟩ : ArmaObj ℚ) [.spec [1] [0], .setSigma 2, .spec [1] [0], .setPhi [1/4], .impulse 3]
+    = [[25/4], [25], [1, 1/2, 1/8]] := by decide +kernel
+
+end history
 
 /-! ## Hamilton filter -/
 
